@@ -270,6 +270,69 @@ def assembly_obligation(scn, chi2_only=False, allow_size_thresholds=False):
     return lambda pkg: run_obligation(pkg, fn, hook=names_hook if scn.symbolic_ids else None, allow_size_thresholds=allow_size_thresholds)
 
 
+REAL_SHAPES = {
+    # kind -> (vertex types, [(edge class, (i, j))]): every vertex is touched by several edges, landmark edges in both roles
+    "R2": (["PoseR2", "PoseR2", "PoseR2"], [("EdgeOdometry", (0, 1)), ("EdgeLandmark", (1, 2)), ("EdgeLandmark", (0, 2)), ("EdgeOdometry", (2, 1)),
+                                            ("EdgeLandmark", (2, 0))]),
+    "R3": (["PoseR3", "PoseR3", "PoseR3"], [("EdgeOdometry", (0, 1)), ("EdgeLandmark", (1, 2)), ("EdgeLandmark", (0, 2)), ("EdgeLandmark", (2, 1))]),
+    "SE2": (["PoseSE2", "PoseR2", "PoseSE2"], [("EdgeOdometry", (0, 2)), ("EdgeLandmark", (0, 1)), ("EdgeLandmark", (2, 1)), ("EdgeOdometry", (2, 0))]),
+}
+
+
+def real_edges_obligation(kind, fixed=(), ffp=True):
+    """The same assembly comparison on a graph of the package's *own* edge classes (odometry and landmark edges with offsets): the
+    reference is built from each edge's own calc_error / calc_jacobians / information as they are before the assembly runs.  The
+    system is assembled twice on the same graph (as two iterations do) and must be the same both times, and no edge's measurement,
+    offset or information matrix may have changed afterwards: the assembly reads the edges, it does not write them."""
+    from .algebra import POINT_OF
+    from .interp import Pose
+
+    def snapshot(x):
+        if isinstance(x, Pose):
+            return ("pose", x.cls, list(x.data))
+        if isinstance(x, Arr):
+            return ("arr", x.shape, list(x.flat()))
+        return ("other", x)
+
+    def fn(it):
+        vtypes, eds = REAL_SHAPES[kind]
+        dims = [CDIM[t] for t in vtypes]
+        verts = [it.construct("Vertex", [Poly.const(100 + 7 * k), sym_pose(t, "x%d" % k)], dict(fixed=(k in fixed))) for k, t in enumerate(vtypes)]
+        edges = []
+        for ei, (ec, (i, j)) in enumerate(eds):
+            ids = [Poly.const(100 + 7 * i), Poly.const(100 + 7 * j)]
+            if ec == "EdgeOdometry":
+                t = vtypes[i]
+                e = it.construct(ec, [ids, sym_symmetric("W%d" % ei, CDIM[t]), sym_pose(t, "z%d" % ei)])
+            else:
+                tz = vtypes[j]
+                e = it.construct(ec, [ids, sym_symmetric("W%d" % ei, CDIM[tz]), sym_pose(tz, "z%d" % ei), sym_pose(vtypes[i], "off%d" % ei)])
+            edges.append(e)
+        g = it.construct("Graph", [edges, verts])
+        spec, before = [], []
+        for e, (ec, vs) in zip(edges, eds):
+            err = it.call_method(e, "calc_error", [])
+            Js = it.call_method(e, "calc_jacobians", [])
+            W = ga(e, "information")
+            spec.append((vs, Arr(list(err.data), 1), Arr([list(r) for r in W.data], 2), [Arr([list(r) for r in J.data], 2) for J in Js]))
+            before.append({f: snapshot(ga(e, f, None)) for f in ("information", "estimate", "offset")})
+        scn = Scenario("real-%s" % kind, vtypes, [vs for _, vs in eds], fixed=fixed, fix_first_pose=ffp)
+        st = _assemble_and_compare(it, g, verts, dims, spec, scn, label="first assembly: ")
+        for e, b, (ec, vs) in zip(edges, before, eds):
+            for f, was in b.items():
+                if snapshot(ga(e, f, None)) != was:
+                    raise ObFail("assembling the linear system changes the %s of the %s between vertices %s (an edge's own data is handed "
+                                 "out and then accumulated into)" % (f, ec, list(vs)))
+        _assemble_and_compare(it, g, verts, dims, spec, scn, label="second assembly of the same graph: ")
+        for e, b, (ec, vs) in zip(edges, before, eds):
+            for f, was in b.items():
+                if snapshot(ga(e, f, None)) != was:
+                    raise ObFail("assembling the linear system twice changes the %s of the %s between vertices %s" % (f, ec, list(vs)))
+        st["scenario"] = scn.name
+        return st
+    return lambda pkg: run_obligation(pkg, fn)
+
+
 def sequence_obligation(first, second):
     """Assemble twice on the same graph object with different fixed sets (as two consecutive optimize() calls would)."""
     def fn(it):
